@@ -3,26 +3,38 @@
 // Contracts for conv/j2p (dgv). Comment-only file.
 package j2p
 
-// OnObjectKey (the JSON visitor's handler for a member name), message and list-of-message contexts (the map context
-// writes the entry header and is excluded by precondition): an unknown member is an error exactly when unknown
-// fields are disallowed — under DisallowUnknownField a successful return never switches the visitor into skipping,
-// at the root AND in nested messages; without the option a successful return either resolved the member
-// (globalFieldDesc set) or switched skipping on. Descriptor look-ups are trusted to be read-only.
-//@ spec (*visitorUserNode).OnObjectKey
-//@   props C09 C06
-//@   requires st: self != nil && self.opts != nil && int(self.sp) < len(self.stk) && !samerg(self, self.stk) && !samerg(self.opts, self) && !samerg(self.opts, self.stk)
-//@   requires notmap: self.stk[int(self.sp)].typ != mapStkType
-//@   requires ctx: self.stk[int(self.sp)].state.msgDesc == nil ==> self.stk[int(self.sp)].state.fieldDesc != nil && self.stk[int(self.sp)].state.fieldDesc.typ != nil && \
-//@       (self.stk[int(self.sp)].typ == objStkType ==> self.stk[int(self.sp)].state.fieldDesc.typ.msg != nil)      // stack invariant: an object context is only pushed for a field with a message descriptor (OnObjectBegin#post:msgonly)
-//@   ensures strict: self.opts.DisallowUnknownField && r0 == nil ==> self.inskip == old(self.inskip)
-//@   ensures lenient: r0 == nil ==> self.inskip || self.globalFieldDesc != nil
-//@   modifies self.inskip, self.globalFieldDesc
-
 // The visitor's stack has 256 entries and sp is a uint8, so a push can never index outside it; a field descriptor
 // always carries a type descriptor (schema well-formedness, precondition).
 //@ pure vst(self *visitorUserNode) bool = self != nil && self.opts != nil && self.p != nil && len(self.stk) == 256 && !samerg(self, self.stk) && !samerg(self.p, self) && \
 //@      !samerg(self.p, self.stk) && !samerg(self.p.Buf, self) && !samerg(self.p.Buf, self.stk) && !samerg(self.p.Buf, self.p) && 0 <= self.p.Read && self.p.Read <= len(self.p.Buf)
 //@ pure cur(self *visitorUserNode) *proto.FieldDescriptor = ite(self.globalFieldDesc == nil && self.stk[int(self.sp)].typ == arrStkType, self.stk[int(self.sp)].state.fieldDesc, self.globalFieldDesc)
+
+
+// OnObjectKey (the JSON visitor's handler for a member name). Message and list-of-message contexts: an unknown member
+// is an error exactly when unknown fields are disallowed — under DisallowUnknownField a successful return never
+// switches the visitor into skipping, at the root AND in nested messages; without the option a successful return
+// either resolved the member (globalFieldDesc set) or switched skipping on. Map context: the pair's tag and length
+// placeholder and the key are written and a PAIR context is pushed whose lenPos is the placeholder's position inside
+// the buffer — which is what onValueEnd relies on when it closes the pair. Descriptor look-ups are trusted read-only.
+//@ spec (*visitorUserNode).OnObjectKey
+//@   timeout 40
+//@   props C09 C06
+//@   requires st: vst(self) && !samerg(self.opts, self) && !samerg(self.opts, self.stk) && !samerg(self.opts, self.p) && !samerg(self.opts, self.p.Buf) && !samerg(key, self.p.Buf)
+//@   requires ctx: self.stk[int(self.sp)].state.msgDesc == nil ==> self.stk[int(self.sp)].state.fieldDesc != nil && self.stk[int(self.sp)].state.fieldDesc.typ != nil && \
+//@       (self.stk[int(self.sp)].typ == objStkType || self.stk[int(self.sp)].typ == mapStkType ==> self.stk[int(self.sp)].state.fieldDesc.typ.msg != nil) && \
+//@       (self.stk[int(self.sp)].typ == mapStkType ==> self.stk[int(self.sp)].state.fieldDesc.typ.typ == proto.MAP && self.stk[int(self.sp)].state.fieldDesc.typ.key != nil && \
+//@        self.stk[int(self.sp)].state.fieldDesc.typ.key.typ != proto.LIST && !samerg(self.stk[int(self.sp)].state.fieldDesc, self.p.Buf) && !samerg(self.stk[int(self.sp)].state.fieldDesc.typ, self.p.Buf) && \
+//@        !samerg(self.stk[int(self.sp)].state.fieldDesc.typ.key, self.p.Buf) && !samerg(self.stk[int(self.sp)].state.fieldDesc.typ.msg, self.p.Buf) && \
+//@        !samerg(self.stk[int(self.sp)].state.fieldDesc, self) && !samerg(self.stk[int(self.sp)].state.fieldDesc, self.stk) && !samerg(self.stk[int(self.sp)].state.fieldDesc, self.p) && \
+//@        !samerg(self.stk[int(self.sp)].state.fieldDesc.typ, self) && !samerg(self.stk[int(self.sp)].state.fieldDesc.typ, self.stk) && !samerg(self.stk[int(self.sp)].state.fieldDesc.typ, self.p) && \
+//@        !samerg(self.stk[int(self.sp)].state.fieldDesc.typ.msg, self) && !samerg(self.stk[int(self.sp)].state.fieldDesc.typ.msg, self.stk) && !samerg(self.stk[int(self.sp)].state.fieldDesc.typ.msg, self.p) && \
+//@        !samerg(self.stk[int(self.sp)].state.fieldDesc.typ.key, self) && !samerg(self.stk[int(self.sp)].state.fieldDesc.typ.key, self.stk) && !samerg(self.stk[int(self.sp)].state.fieldDesc.typ.key, self.p))      // stack invariant: an object context is only pushed for a field with a message descriptor (OnObjectBegin#post:msgonly)
+//@   callsite (*MessageDescriptor).ByNumber assumes valuefield: r0 != nil      // a map entry descriptor has its value field (number 2)
+//@   ensures strict: self.opts.DisallowUnknownField && r0 == nil ==> self.inskip == old(self.inskip)
+//@   ensures pair: old(self.stk[int(self.sp)].state.msgDesc) == nil && old(self.stk[int(self.sp)].typ) == mapStkType && r0 == nil ==> self.sp == old(self.sp) + 1 && \
+//@       self.stk[int(self.sp)].typ == mapStkType && 0 <= self.stk[int(self.sp)].state.lenPos && self.stk[int(self.sp)].state.lenPos < len(self.p.Buf) && self.globalFieldDesc != nil
+//@   ensures lenient: r0 == nil ==> self.inskip || self.globalFieldDesc != nil
+//@   modifies self.inskip, self.globalFieldDesc, self.sp, self.stk[0:256], self.p.Buf, bytes(self.p.Buf)
 
 // OnObjectBegin: an object is accepted for a map field (context pushed, nothing written) and for a field with a
 // message descriptor (tag with wire type BYTES and a one-byte length placeholder written, context pushed); for any
@@ -158,3 +170,14 @@ package j2p
 //@       0 <= self.stk[int(self.sp) - 1].state.lenPos && self.stk[int(self.sp) - 1].state.lenPos < len(self.p.Buf))
 //@   ensures skipped: old(self.inskip) ==> r0 == nil && !self.inskip && same(self.p.Buf, old(self.p.Buf)) && len(self.p.Buf) == old(len(self.p.Buf)) && self.sp == old(self.sp)
 //@   modifies self.inskip, self.sp, self.globalFieldDesc, self.stk[0:256], self.p.Buf, bytes(self.p.Buf)
+
+// encodeMapKey: the key text of a JSON object is written in the map's key type (string as is); a key type that JSON
+// object keys cannot denote is an error. (strconv's parsers are extern models: what they return for which text is not
+// specified here; since fix ba9162f a parse failure is returned, not swallowed.)
+//@ spec (*visitorUserNode).encodeMapKey
+//@   props C09 C06
+//@   requires st: vst(self) && !samerg(key, self.p.Buf)
+//@   ensures other: t != proto.INT32 && t != proto.UINT32 && t != proto.UINT64 && t != proto.INT64 && t != proto.BOOL && t != proto.STRING ==> r0 != nil && len(self.p.Buf) == old(len(self.p.Buf))
+//@   ensures grows: len(self.p.Buf) >= old(len(self.p.Buf))
+//@   ensures mem: (same(self.p.Buf, old(self.p.Buf)) && cap(self.p.Buf) == old(cap(self.p.Buf))) || fresh(self.p.Buf)
+//@   modifies self.p.Buf, bytes(self.p.Buf)
